@@ -1230,13 +1230,14 @@ static void scenario(int codec, long param, size_t n, const char *shape,
             run_sub_apis(codec, &src, xs, x32, n);
         }
         if (what & 4) {
-            /* every capacity below the count for short arrays, the block and
-             * count boundaries otherwise */
-            size_t caps[32] = {0, 1, n - 1, n / 2, 127, 128, 129, n > 128 ? n - 128 : 0};
-            size_t ncaps = 8;
+            /* every capacity up to the count for short arrays, the block and
+             * count boundaries otherwise; always the count itself (an output
+             * array of exactly as many elements as were encoded) */
+            size_t caps[32] = {0, 1, n - 1, n / 2, 127, 128, 129, n > 128 ? n - 128 : 0, n};
+            size_t ncaps = 9;
             if (n <= 24) {
                 ncaps = 0;
-                for (size_t c = 0; c < n; c++) {
+                for (size_t c = 0; c <= n; c++) {
                     caps[ncaps++] = c;
                 }
             }
@@ -1244,7 +1245,7 @@ static void scenario(int codec, long param, size_t n, const char *shape,
             size_t ns = 0;
             for (size_t i = 0; i < ncaps; i++) {
                 size_t c = caps[i];
-                if (c >= n) {
+                if (c > n) {
                     continue;
                 }
                 int dup = 0;
